@@ -679,6 +679,11 @@ BODIES = [
     ("FMINDEX_locatePrefix", "StringDictionaryFMINDEX.cpp", "StringDictionaryFMINDEX::locatePrefix", 0),
     ("FMINDEX_locateSubstr", "StringDictionaryFMINDEX.cpp", "StringDictionaryFMINDEX::locateSubstr", 0),
     ("FMINDEX_build_ssa", "StringDictionaryFMINDEX.cpp", "StringDictionaryFMINDEX::build_ssa", 0),
+    ("FMINDEX_extractSubstr", "StringDictionaryFMINDEX.cpp", "StringDictionaryFMINDEX::extractSubstr", 0),
+    ("FMINDEX_extractPrefix", "StringDictionaryFMINDEX.cpp", "StringDictionaryFMINDEX::extractPrefix", 0),
+    ("FMINDEX_extractTable", "StringDictionaryFMINDEX.cpp", "StringDictionaryFMINDEX::extractTable", 0),
+    ("FMIter_next", "iterators/IteratorDictStringFMINDEX.h", "next", 0),
+    ("FMIterDup_next", "iterators/IteratorDictStringFMINDEXDuplicates.h", "next", 0),
     ("RPFC_decodeString", "StringDictionaryRPFC.cpp", "StringDictionaryRPFC::decodeString", 0),
     ("RPFC_decodeSymbol", "StringDictionaryRPFC.cpp", "StringDictionaryRPFC::decodeSymbol", 0),
     ("RPFC_getHeader", "StringDictionaryRPFC.cpp", "StringDictionaryRPFC::getHeader", 0),
